@@ -512,6 +512,7 @@ func (g *GoBackNConn) sendPacketsForever() error {
 				// peer that has gone away is noticed here too.
 				select {
 				case <-g.pongTicker.Ticks():
+					vtrace(g.timeoutManager, "pongTimeout", 3)
 					return errKeepaliveTimeout
 				default:
 				}
@@ -519,8 +520,10 @@ func (g *GoBackNConn) sendPacketsForever() error {
 				g.pongTicker.Reset()
 				g.pongTicker.Resume()
 				g.pingTicker.Reset()
+				vtrace(g.timeoutManager, "pingFull")
 
 			case <-g.pongTicker.Ticks():
+				vtrace(g.timeoutManager, "pongTimeout", 2)
 				return errKeepaliveTimeout
 			}
 		}
